@@ -2,6 +2,7 @@ package props
 
 import (
 	"fmt"
+	"go/types"
 	"strings"
 
 	"golang.org/x/tools/go/ssa"
@@ -16,7 +17,7 @@ func init() { Registry["C18"] = C18 }
 func C18(p *ir.Program, r *report.R) {
 	c := C{p, r}
 	r.Floor = 30
-	r.Explain = "Decided (authentication + bounds only): MakeSecretConnection returns a connection only after the remote key is non-nil and its signature over the challenge verified, where (provenance) the challenge is genChallenge of the sorted pair of THIS handshake's ephemeral keys, the key and signature are the fields of the message shareAuthSignature returned, the local side signs that same challenge, and sc.remPubKey has no other writer; in SecretConnection.Read the frame buffer allocation and the chunk slice are dominated by their bounds, the header version/type test precedes any use, nonces advance exactly after a successful Open / every Seal; Write and Read agree on the frame header (leading byte, 4-byte big-endian length at the same offset); Channel.recvPacketMsg appends only within the channel capacity and returns a message only on EOF, resetting the buffer; the connection decodes packets with a non-zero size limit. ADDED after seeded-change testing: Channel.nextPacketMsg sets EOF exactly under len(rest) <= max (clearing the buffer) and sends a non-final packet only under len(rest) > max; SecretConnection.Read reads frame header and body with io.ReadFull only. NOT decided: byte-stream identity and per-channel ordering over all chunkings and interleavings (value/schedule properties), flow control. Observation outside the statement: SecretConnection.RemotePubKey() has no caller — the authenticated key is not compared with the node id the switch uses."
+	r.Explain = "Decided (authentication + bounds only): MakeSecretConnection returns a connection only after the remote key is non-nil and its signature over the challenge verified, where (provenance) the challenge is genChallenge of the sorted pair of THIS handshake's ephemeral keys, the key and signature are the fields of the message shareAuthSignature returned, the local side signs that same challenge, and sc.remPubKey has no other writer; in SecretConnection.Read the frame buffer allocation and the chunk slice are dominated by their bounds, the header version/type test precedes any use, nonces advance exactly after a successful Open / every Seal; Write and Read agree on the frame header (leading byte, 4-byte big-endian length at the same offset); Channel.recvPacketMsg appends only within the channel capacity and returns a message only on EOF, resetting the buffer; the connection decodes packets with a non-zero size limit. ADDED after seeded-change testing: sc.recvBuffer only holds memory allocated for the frame (freshness through snappy.Decode(nil,..)/make; pooled buffers rejected); c.bufConnWriter / c.bufConnReader are used only by methods that run on the send / receive goroutine (greatest fixed point over plain calls; each routine started exactly once in OnStart) ; Channel.nextPacketMsg sets EOF exactly under len(rest) <= max (clearing the buffer) and sends a non-final packet only under len(rest) > max; SecretConnection.Read reads frame header and body with io.ReadFull only. NOT decided: byte-stream identity and per-channel ordering over all chunkings and interleavings (value/schedule properties), flow control. Observation outside the statement: SecretConnection.RemotePubKey() has no caller — the authenticated key is not compared with the node id the switch uses."
 	r.Trusted = []string{"crypto.PubKey.VerifyBytes, nacl/secretbox, curve25519", "golang/snappy"}
 
 	// ---- handshake ---------------------------------------------------------------
@@ -251,6 +252,180 @@ func C18(p *ir.Program, r *report.R) {
 		r.Check("K2", name+"/whole-frame-reads", p.Pos(fn.Pos()), len(partial) == 0 && nFull >= 2, fmt.Sprintf("frame header and body are read with io.ReadFull (%d); plain Read on the transport: %v", nFull, partial))
 	}
 
+
+	// ---- the unread remainder of a frame is the connection's own memory -------------------------------
+	// Read keeps what the caller's buffer could not take in sc.recvBuffer until the next Read: it must
+	// be memory nobody else writes in between (a fresh decode buffer, never a pooled or shared one).
+	{
+		eff := ir.DefaultEffects(p)
+		fv := p.Field("libs/p2p/conn", "SecretConnection.recvBuffer")
+		n := 0
+		for _, s := range p.Stores(fv) {
+			if strings.HasSuffix(p.Pos(s.Fn.Pos()), "_test.go") {
+				continue
+			}
+			n++
+			v := ir.Render(s.Val)
+			own := eff.Fresh(s.Val) || ir.Match("sc.recvBuffer[*:]", v) || v == "nil"
+			r.Check("K4", "conn.(*SecretConnection)."+s.Fn.Name()+"/recv-buffer-owned", p.InstrPos(s.Instr), own, "sc.recvBuffer holds memory allocated for this frame: "+short(v, 160))
+		}
+		r.Check("K4", "conn.SecretConnection.recvBuffer/stores", "-", n >= 3, fmt.Sprintf("%d stores to recvBuffer analysed (confirmed by hand: Read x2, rawRead, constructor)", n))
+	}
+
+	// ---- one goroutine per direction owns the buffered transport -------------------------------------
+	// bufio.Writer/Reader are not safe for concurrent use: c.bufConnWriter is touched only by code that
+	// runs on the send goroutine, c.bufConnReader only by the receive goroutine. "Runs on goroutine G"
+	// is the greatest set of methods that are G's body or are only ever called (plainly, never as
+	// values, never with `go`) from such methods; each body is started exactly once, in OnStart.
+	for _, side := range []struct{ field, routine string }{{"bufConnWriter", "sendRoutine"}, {"bufConnReader", "recvRoutine"}} {
+		root := p.Func("libs/p2p/conn", "MConnection."+side.routine)
+		inPkg := func(f *ssa.Function) bool {
+			return f != nil && f.Pkg != nil && ir.RelPkg(f.Pkg.Pkg) == "libs/p2p/conn" && !strings.HasSuffix(p.Pos(f.Pos()), "_test.go")
+		}
+		on := map[*ssa.Function]bool{}
+		for _, f := range p.Funcs {
+			if inPkg(f) && f.Parent() == nil && f.Object() != nil && f.Synthetic == "" {
+				on[f] = true
+			}
+		}
+		// functions used as values / go / defer targets are not provably on the goroutine (except the root's go statement)
+		starts := 0
+		for _, f := range p.Funcs {
+			if !inPkg(f) {
+				continue
+			}
+			for _, b := range f.Blocks {
+				for _, in := range b.Instrs {
+					if g, ok := in.(*ssa.Go); ok && g.Call.StaticCallee() == root {
+						starts++
+						r.Check("K3", "conn.(*MConnection)."+side.routine+"/started-in-OnStart", p.InstrPos(in), ir.FuncName(ir.EnclosingTop(f)) == "libs/p2p/conn.(*MConnection).OnStart", "the routine is started by OnStart")
+						continue
+					}
+					for _, op := range in.Operands(nil) {
+						var g *ssa.Function
+						switch x := (*op).(type) {
+						case *ssa.Function:
+							g = x
+						case *ssa.MakeClosure:
+							if bf, ok := x.Fn.(*ssa.Function); ok && bf.Synthetic != "" && bf.Object() != nil {
+								for h := range on {
+									if h.Object() == bf.Object() {
+										g = h
+									}
+								}
+							}
+						}
+						if g == nil || !on[g] {
+							continue
+						}
+						if _, plain := in.(*ssa.Call); plain && in.(*ssa.Call).Call.Value == *op {
+							continue
+						}
+						delete(on, g)
+					}
+				}
+			}
+		}
+		on[root] = true
+		r.Check("K3", "conn.(*MConnection)."+side.routine+"/started-once", p.Pos(root.Pos()), starts == 1 && len(p.CallSites(root.Object().(*types.Func))) == 1, fmt.Sprintf("%d go statements start the routine; it is not called otherwise", starts))
+		for changed := true; changed; {
+			changed = false
+			for f := range on {
+				if f == root {
+					continue
+				}
+				ok := false
+				for _, cs := range p.CallSites(f.Object().(*types.Func)) {
+					if !inPkg(cs.Fn) {
+						if !strings.HasSuffix(p.Pos(cs.Fn.Pos()), "_test.go") {
+							ok = false
+							break
+						}
+						continue
+					}
+					if !on[ir.EnclosingTop(cs.Fn)] || cs.Fn != ir.EnclosingTop(cs.Fn) && !ir.IsTransparentHelper(cs.Fn) && closureEscapes(cs.Fn) {
+						ok = false
+						break
+					}
+					ok = true
+				}
+				if !ok {
+					delete(on, f)
+					changed = true
+				}
+			}
+		}
+		fv := p.Field("libs/p2p/conn", "MConnection."+side.field)
+		n := 0
+		for _, f := range p.Funcs {
+			if !inPkg(f) {
+				continue
+			}
+			for _, b := range f.Blocks {
+				for _, in := range b.Instrs {
+					fa, ok := in.(*ssa.FieldAddr)
+					if !ok || fieldVarOf(fa) != fv {
+						continue
+					}
+					// the constructor fills the field before any goroutine exists
+					if fa.Referrers() != nil && len(*fa.Referrers()) == 1 {
+						if _, isStore := (*fa.Referrers())[0].(*ssa.Store); isStore && strings.HasPrefix(f.Name(), "NewMConnection") {
+							continue
+						}
+					}
+					n++
+					top := ir.EnclosingTop(f)
+					r.Check("K3", "conn.MConnection."+side.field+"/only-on-"+side.routine+"/"+top.Name(), p.InstrPos(in), on[top] && (f == top || !closureEscapes(f)), "c."+side.field+" is used only by code that runs on the "+side.routine+" goroutine")
+				}
+			}
+		}
+		r.Check("K3", "conn.MConnection."+side.field+"/uses", "-", n >= 1, fmt.Sprintf("%d uses of c.%s analysed", n, side.field))
+	}
+}
+
+// closureEscapes: a function literal that is started as a goroutine, deferred or stored (anything but
+// being called in place) may run on another goroutine.
+func closureEscapes(f *ssa.Function) bool {
+	parent := f.Parent()
+	if parent == nil {
+		return false
+	}
+	for _, b := range parent.Blocks {
+		for _, in := range b.Instrs {
+			for _, op := range in.Operands(nil) {
+				mc, ok := (*op).(*ssa.MakeClosure)
+				if !ok || mc.Fn != f {
+					if fn, ok2 := (*op).(*ssa.Function); !ok2 || fn != f {
+						continue
+					}
+				}
+				switch c := in.(type) {
+				case *ssa.Call:
+					if c.Call.Value == *op {
+						continue
+					}
+				case *ssa.Defer:
+					if c.Call.Value == *op {
+						continue // runs on the same goroutine
+					}
+				}
+				return true
+			}
+		}
+	}
+	return false
+}
+
+func fieldVarOf(fa *ssa.FieldAddr) *types.Var {
+	t := fa.X.Type().Underlying()
+	if pt, ok := t.(*types.Pointer); ok {
+		t = pt.Elem().Underlying()
+	}
+	st, ok := t.(*types.Struct)
+	if !ok {
+		return nil
+	}
+	return st.Field(fa.Field)
 }
 
 var _ = report.Discharged
